@@ -145,7 +145,10 @@ fn algos_val(src: &str, variant: u8) -> Vec<String> {
 
 fn hooks_val(src: &str, variant: u8) -> BTreeMap<String, String> {
     let mut m = BTreeMap::new();
-    m.insert(format!("event_{}", src), format!("script-{}-{}", src, variant));
+    // per-event form is EVENT:SCRIPT, split at the FIRST colon: the script itself may contain colons (URLs, IPv6
+    // addresses, PATH=a:b, date +%H:%M)
+    let script = if variant % 4 == 1 { format!("notify --url http://[fd00::1]:80/{} PATH=/a:/b {}", src, variant) } else { format!("script-{}-{}", src, variant) };
+    m.insert(format!("event_{}", src), script);
     if variant % 2 == 0 {
         // same event from both sources: the command line wins for that event
         m.insert("peer_connected".to_string(), format!("pc-{}", src));
